@@ -36,23 +36,32 @@ type Stmt struct {
 }
 
 type Client struct {
+	// ID is the client's identity (key prefix c<ID>_, private store); it stays
+	// the same when the shrinker drops other clients.
+	ID    int    `json:"id"`
 	Stmts []Stmt `json:"stmts"`
 }
 
 type Scenario struct {
-	Prop     string         `json:"prop"`
-	Family   string         `json:"family,omitempty"`
-	Seed     uint64         `json:"seed"`
-	Cfg      Config         `json:"config"`
-	Init     []KV           `json:"init"`
-	Clients  []Client       `json:"clients"`
-	Hist     []HistStmt     `json:"hist,omitempty"` // history with intended effects (C11/C12); Clients[0] is derived from it
-	L        *LimitCase     `json:"limit_case,omitempty"` // C08 grid point
-	K        *PinCase       `json:"pin_case,omitempty"`   // C18 key-pinning clause
-	Q        *GSelect       `json:"query,omitempty"`      // generator AST of the statement (C03/C05), used by the shrinker
-	CFaults  [][]Fault      `json:"client_faults,omitempty"` // C19: per-client fault plans (indexed by the client's own call sequence)
-	Faults   []Fault        `json:"faults,omitempty"`
-	Schedule []int          `json:"schedule,omitempty"`
+	Prop       string     `json:"prop"`
+	Family     string     `json:"family,omitempty"`
+	Seed       uint64     `json:"seed"`
+	Cfg        Config     `json:"config"`
+	Init       []KV       `json:"init"`
+	Clients    []Client   `json:"clients"`
+	Hist       []HistStmt `json:"hist,omitempty"`          // history with intended effects (C11/C12); Clients[0] is derived from it
+	L          *LimitCase `json:"limit_case,omitempty"`    // C08 grid point
+	K          *PinCase   `json:"pin_case,omitempty"`      // C18 key-pinning clause
+	Q          *GSelect   `json:"query,omitempty"`         // generator AST of the statement (C03/C05), used by the shrinker
+	CFaults    [][]Fault  `json:"client_faults,omitempty"` // C19: per-client fault plans (indexed by the client's own call sequence)
+	HookSites  []string   `json:"hook_sites,omitempty"`    // C19: library-internal yield sites enabled in this run
+	HookPerMil int        `json:"hook_permille,omitempty"` // C19: probability (in 1/1000) of a context switch at an enabled site
+	Faults     []Fault    `json:"faults,omitempty"`
+	Schedule   []int      `json:"schedule,omitempty"`
+	// CSched[i][k]: the ID of the client that runs after client i's k-th storage
+	// call (-1: keep running). Per-client, so that it keeps its meaning when the
+	// shrinker removes other clients.
+	CSched   [][]int        `json:"client_schedules,omitempty"`
 	Topology string         `json:"topology,omitempty"`
 	P        map[string]any `json:"params,omitempty"` // oracle parameters, property specific
 }
